@@ -391,6 +391,7 @@ fn serialize<Output: BinaryOutput>(&self, context: &mut SerializationContext<Out
     }
 
 //#fn id=catalogue::%(X)s::deserialize tags=C02,C14,C05,C06,C04 mode=body
+#[verifier::rlimit(100)]
 fn deserialize(context: &mut DeserializationContext<'_>) -> (r: Result<Self>)%(trans_ens)s
 %(body)s
 }
@@ -412,6 +413,12 @@ def generate(repo, build_dir, lib_unit_path, out_path):
                 txt, nl = gen_struct_v0(d, expanded)
                 parts.append('// ================= catalogue entry %s (struct, version 0)\n' % name + txt)
                 lits |= set(nl)
+            elif d['kind'] == 'enum' and not d['evolution'] and not any(v['evolution'] for v in d['variants']):
+                import catgen_enum
+                H = dict(gen_metadata=gen_metadata, metadata_steps=metadata_steps, live=live, norm_paths=norm_paths, impl_fn=impl_fn)
+                txt, nl = catgen_enum.gen_enum_v0(d, expanded, H)
+                parts.append('// ================= catalogue entry %s (enum, version-0 cases)\n' % name + txt)
+                lits |= set(nl)
             else:
                 skipped.append(name)
         except Unsupported as e:
@@ -428,7 +435,9 @@ def generate(repo, build_dir, lib_unit_path, out_path):
         '        %s != %s,\n' % (strlit(a), strlit(b)) for a in sorted(lits) for b in sorted(lits) if a < b) + '{\n' + ''.join(
         '    reveal_strlit("%s");\n' % n for n in sorted(lits)) + ''.join(
         '    assert(%s[%d] != %s[%d]);\n' % (strlit(a), diffpos(a, b), strlit(b), diffpos(a, b))
-        for a in sorted(lits) for b in sorted(lits) if a < b and len(a) == len(b) and diffpos(a, b) is not None) + '}\n'
+        for a in sorted(lits) for b in sorted(lits) if a < b and len(a) == len(b) and diffpos(a, b) is not None) + ''.join(
+        '    assert(%s.len() != %s.len());\n' % (strlit(a), strlit(b))
+        for a in sorted(lits) for b in sorted(lits) if a < b and len(a) != len(b)) + '}\n'
     text = lib[:cut] + '\n// ======================================================================= CATALOGUE (tools/catgen.py)\n' + reveal + '\n' + '\n'.join(parts) + '\n' + lib[cut:]
     open(out_path, 'w').write(text)
     return dict(entries=[n for n in decls if n not in [s.split(' ')[0] for s in skipped]], skipped=skipped)
